@@ -52,8 +52,8 @@ func GenTargeted(seed int64, idx int, profile string) (GCase, bool) {
 	t := &tgen{r: rand.New(rand.NewSource(seed*104729 + int64(idx)*31 + int64(len(profile)))), name: fmt.Sprintf("t%05d", idx),
 		files: map[string]string{}, feats: map[string]bool{}}
 	fams := map[string][]func(*tgen){
-		"nesting":    {famNested, famNested, famNestedConvRoot, famCandidates, famWholeCopy},
-		"notations":  {famNested, famNestedConvRoot, famCaseFlip, famRefs, famPerMethodLists, famGetterShapes, famConvShapes, famWholeCopy},
+		"nesting":    {famNested, famNested, famNestedConvRoot, famCandidates, famWholeCopy, famEmbeddedFields},
+		"notations":  {famNested, famNestedConvRoot, famCaseFlip, famRefs, famPerMethodLists, famGetterShapes, famConvShapes, famWholeCopy, famEmbeddedFields},
 		"scoping":    {famPerMethodLists, famPerMethodLists, famIntfLevel},
 		"hooks":      {famSharedHooks, famSharedHooks, famHookShapes},
 		"errors":     {famErrors, famSharedHooks, famErrors},
@@ -249,6 +249,29 @@ func famWholeCopy(t *tgen) {
 			sb.WriteString("\t// :style arg\n")
 		}
 		fmt.Fprintf(&sb, "\tM%d(%sS) %sD\n", j, t.pick("*", "*", ""), t.pick("*", "*", ""))
+	}
+	sb.WriteString("}\n")
+	t.files[t.name+"/setup.go"] = sb.String()
+	t.files[t.name+"/types.go"] = ty
+}
+
+// ---- embedded structs: promoted fields that share a name with a field of the embedding struct ------------------
+
+func famEmbeddedFields(t *tgen) {
+	t.feat("family:embedded-struct-fields")
+	ty := fmt.Sprintf("package %s\n\ntype Audit struct {\n\tID int\n\tBy string\n}\ntype S struct {\n\tAudit\n\tID   int\n\tCode int\n\tName string\n}\ntype D struct {\n\tAudit\n\tID   int\n\tName string\n}\ntype DP struct {\n\t*Audit\n\tID int\n}\n", t.name)
+	pool := []string{":map Code ID", ":skip ID", ":map Code Audit.ID", ":skip Audit.By", ":literal ID 7", ":literal Audit.ID 8", ":skip /ID$/", ":map Name Audit.By", ":skip By", ":map Audit.ID ID"}
+	var sb strings.Builder
+	sb.WriteString(header(t))
+	sb.WriteString("type Convergen interface {\n")
+	for j := 0; j < 1+t.r.Intn(3); j++ {
+		for k := 0; k < t.r.Intn(3); k++ {
+			sb.WriteString("\t// " + pool[t.r.Intn(len(pool))] + "\n")
+		}
+		if t.ch(0.3) {
+			sb.WriteString("\t// :style arg\n")
+		}
+		fmt.Fprintf(&sb, "\tM%d(%sS) %s%s\n", j, t.pick("*", "*", ""), t.pick("*", "*", ""), t.pick("D", "D", "DP"))
 	}
 	sb.WriteString("}\n")
 	t.files[t.name+"/setup.go"] = sb.String()
@@ -1158,6 +1181,12 @@ func famImportNames(t *tgen) {
 				sb.WriteString("\t// " + n + "\n")
 			}
 		}
+		if t.ch(0.2) {
+			// a receiver of the imported type (also when its name needs no qualifier): not a local type
+			fmt.Fprintf(&sb, "\t// :recv m\n\tRecv%d(*%sM) *L\n", j, q)
+			t.feat("recv-with-imported-type")
+			continue
+		}
 		if t.ch(0.3) {
 			// sometimes the unexported twin, which the setup file's package cannot refer to
 			fmt.Fprintf(&sb, "\t// :conv %s%s Co Co\n", q, t.pick("ToCode", "ToCode", "ToCode", "toCode"))
@@ -1197,6 +1226,11 @@ func famVisibility(t *tgen) {
 			if t.ch(0.35) {
 				sb.WriteString("\t// " + n + "\n")
 			}
+		}
+		if t.ch(0.4) {
+			// a :skip that matches a member the package cannot see: still not to be mentioned
+			sb.WriteString("\t// :skip " + t.pick("secret", "/ecret$/", "Inner.b", "/^Inner\\.[a-z]$/", "peek", "/^_$/", "Open") + "\n")
+			t.feat("skip-matches-invisible-member")
 		}
 		sh := shapes[t.r.Intn(len(shapes))]
 		fmt.Fprintf(&sb, "\t"+sh+"\n", j, t.pick("*", "*", ""), t.pick("*", "*", ""))
@@ -1449,7 +1483,8 @@ func famSlices(t *tgen) {
 			sb.WriteString("\t// " + nn + "\n")
 		}
 	}
-	sb.WriteString("\tConv(*S) *D\n}\n")
+	// sometimes an operand is called like a variable of the generated element loop
+	sb.WriteString("\t" + t.pick("Conv(*S) *D", "Conv(*S) *D", "Conv(*S) *D", "Conv(i *S) *D", "Conv(src *S) (e *D)", "Conv(e *S) (i *D)", "Conv(s *S, i int) *D") + "\n}\n")
 	t.files[t.name+"/setup.go"] = sb.String()
 	t.files[t.name+"/types.go"] = ty.String()
 }
